@@ -271,7 +271,7 @@ def run(ctx):
     for it in range(ctx.q(24, 160)):
         n = int(rng.integers(2, ctx.q(13, 25))); c = int(rng.integers(1, 4)); N = int(rng.integers(2, n + 1))
         cplx = bool(it % 2); dt = ['PyTrue', 'PyFalse', 'PyNone', 'PyTrue'][(it // 2) % 4]
-        name = str(rng.choice(['hann', 'hamming', 'rectangular', 'blackman']))
+        name = E.pick_window(rng, ['hann', 'hamming', 'rectangular', 'blackman']) if N >= 8 else str(rng.choice(['hann', 'hamming', 'rectangular', 'blackman']))
         x = rng.integers(-64, 65, size=N) / 8.0 + float(rng.integers(0, 5))
         if cplx:
             x = x + 1j * (rng.integers(-64, 65, size=N) / 8.0 + 2.0)
@@ -346,9 +346,9 @@ def run(ctx):
             x = x + (3.0 + (2.0j if cplx else 0))
         c = int(rng.choice([2, 3, 4])); NFFT = int(rng.choice([N, N + 1, N + 2, N + 3, 2 * N + 1, 32, 33, 48])); NFFT = max(NFFT, N)
         if name == 'speriodogram':
-            cfg = {'detrend': bool(rng.integers(0, 2)), 'window': str(rng.choice(['hann', 'hamming', 'rectangular', 'blackman']))}
+            cfg = {'detrend': bool(rng.integers(0, 2)), 'window': E.pick_window(rng, ['hann', 'hamming', 'rectangular', 'blackman'])}
         elif name == 'CORRELOGRAMPSD':
-            lag = int(rng.integers(2, N // 2)); cfg = {'lag': lag, 'window': str(rng.choice(['hamming', 'hann', 'rectangular'])), 'norm': str(rng.choice(['biased', 'unbiased']))}
+            lag = int(rng.integers(2, N // 2)); cfg = {'lag': lag, 'window': E.pick_window(rng, ['hamming', 'hann', 'rectangular']), 'norm': str(rng.choice(['biased', 'unbiased']))}
             NFFT = max(NFFT, 2 * lag + 1)
             if rng.integers(0, 3) == 0:
                 NFFT = 2 * lag + 1 + int(rng.integers(0, 2))          # the smallest admissible grid
